@@ -47,7 +47,9 @@ RPC_KINDS = [
 NS_BENIGN = ['', ':a', ':a:b']
 KEYS = ['k1', 'k2', '']
 # prefix-related and underscore-containing client ids on purpose (filters, LIKE, name parsing)
-WORKERS = ['w1', 'w10', 'w', 'a_b']
+# Client ids: one is a prefix of another, two are equal under SQL LIKE ('_' wildcard), and they hold
+# characters that URL-style escaping treats specially (space, '+', '%').
+WORKERS = ['w 1', 'w 10', 'a_b', 'a+b', 'w%201', 'w']
 
 
 # ---------------------------------------------------------------- study specs
